@@ -488,6 +488,8 @@ pub fn run() {
     std::fs::write(dir.join("ok.asm"), "#! mrasm\n LD R0, 7\n ST (0xFF), R0\nL:\n INC R0\n JR L\n").unwrap();
     std::fs::write(dir.join("bad.asm"), "#! mrasm\n FROB\n").unwrap();
     std::fs::write(dir.join("long.asm"), format!("#! mrasm\n{}", " NOP ; filler line with a comment that is rather long indeed\n".repeat(60))).unwrap();
+    // 239 one-byte instructions with labels in between: a listing far longer than any pane
+    std::fs::write(dir.join("big.asm"), format!("#! mrasm\n{}E:\n JR E\n", (0..79).map(|i| format!("L{}:\n INC R0\n NOP ; {}\n INC R1\n", i, i)).collect::<String>())).unwrap();
     std::env::set_current_dir(&dir).expect("chdir to the private directory");
     let cleanup = |d: &std::path::Path| {
         let _ = std::env::set_current_dir("/");
@@ -556,6 +558,8 @@ pub fn run() {
         typed("load ok.asm"),
         typed("load long.asm"),
         typed("bogus command"),
+        { let mut k = typed("load big.asm"); k.extend(typed("next 700")); k },
+        { let mut k = typed("load big.asm"); k.extend(typed("next 1900")); k.extend(typed("show memory")); k },
         { let mut k = typed("load ok.asm"); k.extend(typed("next 40")); k.extend("set TEMP = 3.3".chars().map(|c| K::E(Key::Char(c)))); k },
     ];
     let rep_sizes: Vec<(u16, u16)> = {
@@ -720,7 +724,7 @@ pub fn run() {
     ctx.set("traces_validated_against_impl", transitions + cmd_runs + ctl_runs);
     ctx.set("evaluations", transitions + cmd_runs + ctl_runs + renders);
     ctx.set("distinct_nontrivial", states + cmd_accepted);
-    ctx.set("rule", "editor: BFS by replay over a 22-key alphabet (characters incl. multi-byte, Enter, Tab, BackTab, arrows, Home/End, Backspace/Delete), states deduplicated on (input, cursor, history, history index, completions, notification); every key goes through the real Tui::handle_event and is compared with REF-EDIT / REF-CMD and a twin Machine driven by library calls; every transition renders the real Interface into a Buffer; rendering: every chosen editor state x all widths 76..250 and heights 28..100, 6 session states x all sizes 1x1..250x100, long inputs around the widget width; commands: the sentence family and all short strings typed and submitted; control keys: all ordered pairs after 20 machine states");
+    ctx.set("rule", "editor: BFS by replay over a 22-key alphabet (characters incl. multi-byte, Enter, Tab, BackTab, arrows, Home/End, Backspace/Delete), states deduplicated on (input, cursor, history, history index, completions, notification); every key goes through the real Tui::handle_event and is compared with REF-EDIT / REF-CMD and a twin Machine driven by library calls; every transition renders the real Interface into a Buffer; rendering: every chosen editor state x all widths 76..250 and heights 28..100, 8 session states x all sizes 1x1..250x100, long inputs around the widget width; commands: the sentence family and all short strings typed and submitted; control keys: all ordered pairs after 20 machine states");
     ctx.set("exhaustive", true);
     ctx.set("bounds", format!("editor depth {} ({} distinct states, {} key transitions, {} distinct screen digests); {} render calls; {} submitted command lines ({} executed as documented commands); {} control-key runs", depth, states, transitions, digests, renders, cmd_runs, cmd_accepted, ctl_runs));
     ctx.set("render_calls", renders);
